@@ -504,7 +504,7 @@ func (g *Gen) nestedActs(t *rapid.T, op *Op) {
 	al := g.m().AliveList()
 	n := rapid.IntRange(1, 3).Draw(t, "nestedN")
 	for i := 0; i < n; i++ {
-		kinds := []string{"new", "newBatch", "reset", "removeEntities", "mapNew", "mapNewBatch"}
+		kinds := []string{"new", "newBatch", "reset", "removeEntities", "mapNew", "mapNewBatch", "mapAddBatch", "mapRemoveBatch", "exBatch"}
 		if len(al) > 0 {
 			kinds = append(kinds, "copy", "add", "remove", "exchange", "removeEntity", "mapAdd", "mapRemove", "setRel")
 		}
@@ -547,9 +547,30 @@ func (g *Gen) nestedActs(t *rapid.T, op *Op) {
 				}
 			}
 		}
-		if k == "mapNew" || k == "mapNewBatch" {
+		if k == "mapNew" || k == "mapNewBatch" || k == "mapAddBatch" || k == "mapRemoveBatch" {
 			l := instsWithin(^comps.RelMask, mapMask, len(MapInsts))
 			a.M = rapid.SampledFrom(l).Draw(t, "nestedMapper")
+		}
+		if k == "exBatch" {
+			a.M = rapid.IntRange(0, len(ExInsts)-1).Draw(t, "nestedExchanger")
+			if ExInsts[a.M].Mask&comps.RelMask != 0 {
+				a.K, k = "mapRemoveBatch", "mapRemoveBatch"
+				a.M = rapid.SampledFrom(instsWithin(^comps.RelMask, mapMask, len(MapInsts))).Draw(t, "nestedMapper")
+			}
+		}
+		if k == "mapAddBatch" || k == "mapRemoveBatch" || k == "exBatch" || k == "removeEntities" {
+			// the batch of another filter than the one of the running operation (or of all entities)
+			a.F = -1
+			var fl []int
+			for fi, f := range g.m().Filters {
+				if f.Inst >= 0 && !f.Stale {
+					fl = append(fl, fi)
+				}
+			}
+			if len(fl) > 0 && rapid.Bool().Draw(t, "nestedFilter") {
+				a.F = rapid.SampledFrom(fl).Draw(t, "nestedBatchFilter")
+				a.Sub = "f"
+			}
 		}
 		if k == "new" {
 			a.P = rapid.SampledFrom([]int{PWorld, PUnsafe}).Draw(t, "nestedNewPath")
